@@ -7,6 +7,7 @@ import (
 	"fmt"
 	"strconv"
 	"strings"
+	"time"
 
 	"pgregory.net/rapid"
 )
@@ -14,7 +15,7 @@ import (
 // Col is a declared column of a generated table.
 type Col struct {
 	Name string `json:"name"`
-	Kind string `json:"kind"` // int float str bool
+	Kind string `json:"kind"` // int float str bool time (time: CSV tables only, see TableOpts.Time)
 }
 
 // TableSpec is a generated file-backed table. Rows hold JVs of the declared kind or null.
@@ -86,6 +87,8 @@ func (t TableSpec) Render() string {
 					rec[i] = strconv.FormatBool(v.B)
 				case "str":
 					rec[i] = v.S
+				case "time":
+					rec[i] = TimeCellText(v)
 				}
 			}
 			if len(rec) == 1 && rec[0] == "" {
@@ -142,9 +145,57 @@ type TableOpts struct {
 	NoLong  bool
 	Kinds   []string // restrict kinds
 	MinCols int
+	// Time: CSV tables may hold Time columns (RFC3339 cells, one instant in several zone spellings); each column of a CSV
+	// table becomes a time column with probability 1/7, i.e. roughly a third of the CSV tables have one. Never in JSON tables.
+	Time bool
 }
 
 var strPool = []string{"x", "y", "z", "xa", "xb", "x y", "y,z", "z\"q", "xA", "yq", "xab", "zz"}
+
+// ---- time cells --------------------------------------------------------------------------------------------------------
+//
+// A time cell is JV{K:"time", I: unix nanoseconds (whole seconds), Z: zone offset in seconds, S: zone suffix spelling}.
+// S is only set for the two alternative spellings of offset 0 ("+00:00", "-00:00"); otherwise the suffix follows from Z
+// ("Z" for 0). The VALUE is the instant I: Z and S are spelling only (model.Cmp looks at I alone).
+
+// timePoolSec: a small, duplicate-heavy pool of instants (seconds since the epoch; all inside the range time.UnixNano can
+// hold). Includes pre-1970 and far instants (octosql reads them as plain times), and two instants close to midnight
+// whose texts in different zones sort in the opposite order to the instants themselves.
+var timePoolSec = []int64{
+	1619863200, 1619863200, 1619863200, 1619863200, // 2021-05-01T10:00:00Z
+	1619863201, 1619863201, // one second later
+	1640993400, 1640993400, // 2021-12-31T23:30:00Z (2022-01-01T01:30:00+02:00)
+	1640994300,  // 2021-12-31T23:45:00Z
+	-1,          // 1969-12-31T23:59:59Z
+	0,           // 1970-01-01T00:00:00Z
+	-2208988800, // 1900-01-01T00:00:00Z
+	9223372036,  // 2262-04-11T23:47:16Z, the last whole second UnixNano can hold
+}
+
+// timeKeyPoolSec: the three instants of a time-typed join key.
+var timeKeyPoolSec = []int64{1619863200, 1619863201, 1640993400}
+
+type zoneSpelling struct {
+	off    int
+	suffix string // "" = derived from off
+}
+
+var zoneSpellings = []zoneSpelling{{0, ""}, {7200, ""}, {-14400, ""}, {19800, ""}, {0, "-00:00"}, {0, "+00:00"}}
+
+func timeCell(t *rapid.T, pool []int64, label string) JV {
+	sec := rapid.SampledFrom(pool).Draw(t, label)
+	z := rapid.SampledFrom(zoneSpellings).Draw(t, label+"zone")
+	return JV{K: "time", I: sec * 1e9, Z: z.off, S: z.suffix}
+}
+
+// TimeCellText is the RFC3339 text of a time cell as written into a CSV file.
+func TimeCellText(v JV) string {
+	tm := time.Unix(0, v.I).In(time.FixedZone("", v.Z))
+	if v.Z == 0 && v.S != "" {
+		return tm.UTC().Format("2006-01-02T15:04:05") + v.S
+	}
+	return tm.Format(time.RFC3339)
+}
 
 // CellOf draws a non-null cell of a kind from a small, duplicate-heavy pool.
 func CellOf(t *rapid.T, kind string, label string) JV {
@@ -157,6 +208,8 @@ func CellOf(t *rapid.T, kind string, label string) JV {
 		return Bool(rapid.Bool().Draw(t, label))
 	case "str":
 		return Str(rapid.SampledFrom(strPool).Draw(t, label))
+	case "time":
+		return timeCell(t, timePoolSec, label)
 	}
 	panic("bad kind " + kind)
 }
@@ -171,15 +224,17 @@ func Table(t *rapid.T, o TableOpts) TableSpec {
 	if kinds == nil {
 		kinds = []string{"int", "float", "str", "bool"}
 	}
-	if format == "json" {
+	{
+		// "time" is never drawn like the other kinds: see TableOpts.Time
 		var ks []string
 		for _, k := range kinds {
-			if k != "int" {
+			if k != "time" && !(format == "json" && k == "int") {
 				ks = append(ks, k)
 			}
 		}
 		kinds = ks
 	}
+	withTime := o.Time && format == "csv"
 	maxCols := o.MaxCols
 	if maxCols == 0 {
 		maxCols = 4
@@ -191,6 +246,10 @@ func Table(t *rapid.T, o TableOpts) TableSpec {
 	ncols := rapid.IntRange(minCols, maxCols).Draw(t, o.Name+"ncols")
 	spec := TableSpec{Name: o.Name, Format: format}
 	for i := 0; i < ncols; i++ {
+		if withTime && rapid.IntRange(0, 6).Draw(t, fmt.Sprintf("%stimecol%d", o.Name, i)) == 0 {
+			spec.Cols = append(spec.Cols, Col{Name: fmt.Sprintf("c%d", i), Kind: "time"})
+			continue
+		}
 		spec.Cols = append(spec.Cols, Col{Name: fmt.Sprintf("c%d", i), Kind: rapid.SampledFrom(kinds).Draw(t, fmt.Sprintf("%skind%d", o.Name, i))})
 	}
 	if o.KeyPool {
@@ -228,6 +287,8 @@ func Table(t *rapid.T, o TableOpts) TableSpec {
 					row[i] = Int(int64(rapid.IntRange(1, 3).Draw(t, label)))
 				case "float":
 					row[i] = FromFloat(float64(rapid.IntRange(1, 3).Draw(t, label)))
+				case "time":
+					row[i] = timeCell(t, timeKeyPoolSec, label)
 				default:
 					row[i] = Str(rapid.SampledFrom([]string{"x", "y", "z"}).Draw(t, label))
 				}
